@@ -16,12 +16,20 @@ Oracle (literal reading of the property statement):
   globals   every root that was supplied by the render arguments / template globals, at a
             reference that -- by the GENERATOR's lexical model, never liquid's -- is neither
             inside a block binding the name nor preceded in source order by an assignment to
-            it (in its own template or, for shared-scope call sites, at the call site), is a
-            key of ``globals``.
+            it (in its own template or, for shared-scope call sites, at the call site; what an
+            included / extended template assigns counts as assigned at its call site), is a
+            key of ``globals`` (level root-name, the property statement) and ``globals`` lists
+            it with the location of that reference (level location: docs/static_analysis.md and
+            the TemplateAnalysis doc say globals are reported with the location of each).
+
+Genuine defects found on the pinned tree are listed in known_findings.d/C19.json; the
+signature of a globals violation carries the feature of the program that distinguishes it
+(how the template holding the reference was reached), computed from the generator's model.
 """
 
 from __future__ import annotations
 
+import json
 import warnings
 from typing import Any
 from typing import Optional
@@ -29,6 +37,7 @@ from typing import Optional
 from mc import util as U
 from mc.core import Check
 from mc.core import Result
+from mc.core import jdumps
 from mc.ref import c19_gen as G
 from mc.ref.c19_monitor import MONITOR
 from mc.ref.c19_monitor import canon_segments
@@ -177,6 +186,7 @@ def check_program(res: Result, shape: list[Any], layout: str, data_labels: Optio
     rep_filters = set(a.filters)
     rep_tags = set(a.tags)
     rep_globals = set(a.globals)
+    rep_global_at = {(v.span.template_name, v.span.index) for vs in a.globals.values() for v in vs}
 
     seen_markers: set[str] = set()
     all_markers = [m for pt in world.templates.values() for m in pt.markers]
@@ -241,11 +251,22 @@ def check_program(res: Result, shape: list[Any], layout: str, data_labels: Optio
                 n_glob += 1
                 if root not in rep_globals:
                     feat, chain = feature(world, fr)
-                    sig = {"clause": "globals", "feature": feat, "chain": chain, "ref_template": RT.name, "root": root}
+                    sig = {"clause": "globals", "level": "root-name", "feature": feat, "chain": chain,
+                           "ref_template": RT.name, "root": root}
                     res.violation(sig, f"root {root!r} was supplied by the render arguments/globals at {RT.name}:{ridx} "
                                        f"(reached via {chain}, data {label}, {mode}); the reference is not inside a block "
                                        f"binding it nor preceded by an assignment, but it is not in globals "
                                        f"{sorted(rep_globals)} of {src!r}", case)
+                elif (RT.name, ridx) not in rep_global_at:
+                    # docs/static_analysis.md + TemplateAnalysis: `globals` lists the out-of-scope variables with the
+                    # location of each; the root is reported, but not for this reference
+                    feat, chain = feature(world, fr)
+                    sig = {"clause": "globals", "level": "location", "feature": feat, "chain": chain,
+                           "ref_template": RT.name, "root": root}
+                    res.violation(sig, f"root {root!r} was supplied by the render arguments/globals at {RT.name}:{ridx} "
+                                       f"(reached via {chain}, data {label}, {mode}) at a non-exempt reference; globals reports "
+                                       f"{root!r} only at other locations "
+                                       f"{sorted((v.span.template_name, v.span.index) for v in a.globals[root])} of {src!r}", case)
             res.count("supplied_checked", n_glob)
             if tr.stray:
                 res.count("supplied_outside_variable_lookup", tr.stray)
@@ -303,13 +324,14 @@ class C19(Check):
         for idx, shape in enumerate(self.programs(tier)):
             if idx % n == i:
                 check_program(res, shape, "plain")
+        res.violations = json.loads(jdumps(res.violations))  # plain JSON types only (liquid uses str subclasses)
         return res
 
     def replay(self, case: Any) -> list[dict[str, Any]]:
         setup()
         res = Result()
         check_program(res, case["shape"], case.get("layout", "plain"), [case["data"]], [case["mode"]])
-        return res.violations
+        return json.loads(jdumps(res.violations))
 
 
 # core menus (indices into G.LEAVES / G.BLOCKS) for the largest size of each tier
